@@ -173,6 +173,7 @@ def plan_C05(ctx):
     e1_chunking(ctx)
     e2_postings_iter(ctx, n_of(ctx, 400, 6000))
     run_family(ctx, "iter_walk", n_of(ctx, 300, 5000), perfile=50)
+    run_family(ctx, "reuse_pairs", n_of(ctx, 324, 972), perfile=54, seed_off=3)
     run_family(ctx, "iter_big", n_of(ctx, 12, 150), perfile=n_of(ctx, 2, 5))
     require_cov(ctx, "tag:onehit", "tag:multichunk", "tag:excluded", "tag:advance", "tag:replace", "onehit_iter")
     canary(ctx)
@@ -302,6 +303,7 @@ def plan_C13(ctx):
     e1_gen_api(ctx)
     e2_gen_api(ctx, n_of(ctx, 60, 1200))
     run_family(ctx, "reuse", n_of(ctx, 200, 4000), perfile=n_of(ctx, 20, 40))
+    run_family(ctx, "reuse_pairs", n_of(ctx, 324, 1944), perfile=54)     # the whole predecessor/successor matrix
     run_family(ctx, "dv_walk", n_of(ctx, 8, 100), perfile=2, seed_off=9)
     canary(ctx)
 
@@ -309,6 +311,7 @@ def plan_C13(ctx):
 def plan_C14(ctx):
     e1_builder_pool(ctx)
     run_family(ctx, "pool_seq", n_of(ctx, 150, 3000), perfile=n_of(ctx, 15, 40), env_extra={"VERIF_INLINE": "1"})
+    run_family(ctx, "pool_big", n_of(ctx, 4, 40), perfile=1, env_extra={"VERIF_INLINE": "1"})
     run_family(ctx, "conc_build", n_of(ctx, 40, 600), perfile=n_of(ctx, 10, 20))
     race_pass(ctx, "conc_build", n_of(ctx, 16, 200), "C14")
     require_cov(ctx, "pooled_builds")
@@ -367,6 +370,19 @@ LEVELS = {p: ("model_checking", RULE) for p in PLANS}
 def replay(ctx, path):
     with open(path) as f:
         r = json.load(f)
+    if r.get("kind") == "crash":
+        # the executor died inside ice: run the same executor command again
+        cmd = r.get("cmd", [])
+        out = ctx.sub("replay-crash")
+        cmd = [c if not (os.path.isabs(c) and ".work" in c) else out for c in cmd]
+        try:
+            run_icex(ctx, cmd)
+        except Crashed as ex:
+            print("VIOLATION property=%s replay=%s" % (ctx.prop, path))
+            print("  executor process crashed inside ice again: %s" % str(ex)[:800])
+            return 1
+        print("crash did not reproduce (schedules of free-running goroutines are not deterministic)", file=sys.stderr)
+        return 0
     if r.get("kind") != "scenario" or not r.get("scenario"):
         print("replay file has no scenario", file=sys.stderr)
         return 2
